@@ -35,6 +35,12 @@ def strip_cvref(s):
     return s.strip()
 
 
+def precheck(ctx):
+    # programs that must build: construction from every value category and constness, below and above the inline capacity
+    ctx.rule('C17.W', 'client programs constructing AnyData from every value category, constness and size build')
+    witness.check_static_unit(ctx, 'C17.W', os.path.join(extract.VERIF, 'witness', 's_anydata.cpp'), 'AnyData construction / access')
+
+
 def check(ctx):
     ctx.rule('C17.A1', 'every placement-new into the AnyData buffer fits')
     ctx.rule('C17.A2', 'inline constructor <=> payload fits the inline capacity')
@@ -201,6 +207,28 @@ def check_accessors(ctx, tu, info):
 
 
 def check_table(ctx, tu, info):
+    # one table (and one deleter) per stored *object type*: the type argument is canonical - no cv qualifier, no reference - so that
+    # isType<T> answers for the stored type whatever value category and constness the constructor argument had, and the move entry
+    # really moves (a table for `const T` copy-constructs instead)
+    for f in tu.fns:
+        if f.skey in ('anydata_internal_::doGetAnyDataFunctions', 'anydata_internal_::funcFreeObject', 'anydata_internal_::funcMoveConstruct',
+                      'anydata_internal_::funcDeleteObject'):
+            ta = f.d.get('targs') or []
+            if ta and isinstance(ta[0], int):
+                t = tu.tstr(ta[0])
+                ctx.ob('C17.A3', f, 'tables and deleters are instantiated for the unqualified object type only', strip_cvref(t) == t.strip(),
+                       detail='instantiated for <%s>' % t, key_detail='canonical table type')
+        elif f.skey == 'anydata_internal_::getAnyDataFunctions':
+            ta = f.d.get('targs') or []
+            cal = [n for n in f.calls() if (f.callee(n) or {}).get('name') == 'doGetAnyDataFunctions']
+            ok = len(cal) == 1 and bool(ta) and isinstance(ta[0], int)
+            if ok:
+                m = re.match(r'.*doGetAnyDataFunctions<(.*)>$', (f.callee(cal[0]) or {}).get('q', ''))
+                ok = bool(m) and m.group(1).strip() == strip_cvref(tu.tstr(ta[0]))
+            ctx.ob('C17.A3', f, 'getAnyDataFunctions<T> yields the table of T with cv and reference removed', ok,
+                   detail='for <%s> it asks for %s' % (tu.tstr(ta[0]) if ta and isinstance(ta[0], int) else '?',
+                                                     (f.callee(cal[0]) or {}).get('q', '?')[-80:] if cal else 'nothing'),
+                   key_detail='table of decayed type')
     for f in tu.fns:
         if f.skey == 'anydata_internal_::funcFreeObject':
             dt = [n for n in f.nodes if f.nodes[n]['cls'] in ('CXXMemberCallExpr',) and (f.callee(n) or {}).get('dtor')] + \
